@@ -146,42 +146,6 @@ fn c06_depth_sort_orders() {
     kani::cover!(front && a == 2, "reordered");
 }
 
-/// depth_sort with arbitrary per-vertex depths (3 triangles x 3 small-integer clip z): whatever
-/// key the implementation sorts by (centroid, nearest or farthest vertex), two triangles whose
-/// depth *ranges* are disjoint must come out in depth order - FrontToBack: the wholly nearer one
-/// first; BackToFront: the wholly farther one first.  The result is a permutation.
-#[kani::proof]
-#[kani::unwind(12)]
-fn c06_depth_sort_disjoint_ranges() {
-    let zz: [i8; 9] = kani::any();
-    kani::assume(zz.iter().all(|v| *v >= -8 && *v <= 8));
-    let mk = |i: usize| {
-        let v = |k: usize| ClipVert::new(vertex(ProjVec4::new([0.0, 0.0, zz[3 * i + k] as f32, 1.0]), i as u32));
-        Tri([v(0), v(1), v(2)])
-    };
-    let mut tris = [mk(0), mk(1), mk(2)];
-    let front: bool = kani::any();
-    depth_sort(&mut tris, if front { DepthSort::FrontToBack } else { DepthSort::BackToFront });
-    let id = |t: &Tri<ClipVert<u32>>| t.0[0].attrib as usize;
-    let ids = [id(&tris[0]), id(&tris[1]), id(&tris[2])];
-    assert!(ids[0] < 3 && ids[1] < 3 && ids[2] < 3 && ids[0] != ids[1] && ids[1] != ids[2] && ids[0] != ids[2]);
-    let lo = |i: usize| zz[3 * i].min(zz[3 * i + 1]).min(zz[3 * i + 2]);
-    let hi = |i: usize| zz[3 * i].max(zz[3 * i + 1]).max(zz[3 * i + 2]);
-    let mut a = 0;
-    while a < 3 {
-        let mut b = a + 1;
-        while b < 3 {
-            // ids[a] is emitted before ids[b]
-            let (p, q) = (ids[a], ids[b]);
-            if front { assert!(!(hi(q) < lo(p))); } else { assert!(!(lo(q) > hi(p))); }
-            b += 1;
-        }
-        a += 1;
-    }
-    kani::cover!(front && hi(0) < lo(1) && hi(1) < lo(2) && ids[0] == 0, "three disjoint ranges");
-    kani::cover!(hi(0) >= lo(1) && hi(1) >= lo(2) && hi(0) < lo(2), "chain of overlaps with disjoint ends");
-}
-
 /// P4: perspective divide + viewport transform, exactly as render() does them:
 /// a clip-space vertex with |x|, |y| <= w and w in [2^-10, 2^10] lands inside
 /// the viewport rectangle [l,r] x [t,b] (within 1e-3 px) with a positive,
